@@ -8,12 +8,15 @@
 (*        "rule"    the same locations reported under a foreign rule       *)
 (*        "ghost"   the codemod's rule reported for another (absent) file  *)
 (*        "status"  the codemod's rule, but the issue is resolved / closed *)
+(*                  / reviewed                                             *)
+(*        "inner"   (tools that report a line only) the finding names an   *)
+(*                  inner line of a construct that spans several lines     *)
 (***************************************************************************)
 EXTENDS Naturals, FiniteSets, TLC
 
 N == 3
 Sites == 1..N
-Kinds == {"subset", "rule", "ghost", "status"}
+Kinds == {"subset", "rule", "ghost", "status", "inner"}
 
 VARIABLES sc, exp, st
 
@@ -23,7 +26,7 @@ Scenarios ==
   \cup {[kind |-> k, reported |-> {2}] : k \in Kinds \ {"subset"}}
 
 \* a finding counts for site s of this file iff it is an open finding of the codemod's own rule located at s in this file
-Counts(kind) == kind = "subset"
+Counts(kind) == kind \in {"subset", "inner"}
 MustRewrite(s) == IF Counts(s.kind) THEN s.reported ELSE {}
 
 Init == sc \in Scenarios /\ exp = {} /\ st = "init"
@@ -31,5 +34,5 @@ Next == st = "init" /\ st' = "done" /\ exp' = MustRewrite(sc) /\ UNCHANGED sc
 Spec == Init /\ [][Next]_<<sc, exp, st>>
 
 LemmaSubset == exp \subseteq sc.reported
-LemmaDecoysChangeNothing == (st = "done" /\ sc.kind # "subset") => exp = {}
+LemmaDecoysChangeNothing == (st = "done" /\ ~Counts(sc.kind)) => exp = {}
 =============================================================================
